@@ -167,6 +167,20 @@ class Confinement:
         self.helper_out[name] = dict(r.out_contrib)
         return self.helper_sum[name]
 
+    @staticmethod
+    def returns_own_container(h) -> Optional[str]:
+        """the parameter p when every return of the helper is `return p` and p is never rebound"""
+        rets = [r for r in walk_local(h.node) if isinstance(r, ast.Return)]
+        if not rets or not all(isinstance(r.value, ast.Name) and r.value.id in h.params for r in rets):
+            return None
+        names = {r.value.id for r in rets}
+        if len(names) != 1:
+            return None
+        p = names.pop()
+        if any(isinstance(x, ast.Name) and x.id == p and isinstance(x.ctx, ast.Store) for x in walk_local(h.node)):
+            return None
+        return p
+
     def apply_helper_out(self, call: ast.Call, env: Env, fi) -> None:
         """a helper that adds to a container passed as argument: the caller's container now holds these elements"""
         n = call.func.id
@@ -239,8 +253,22 @@ class Confinement:
                     return TOP if not e.args else self.ev(e.args[0], env, fi)
                 if self.is_helper(n):
                     hs = self.helper_summary(n)
+                    h = self.helper_fi(n)
+                    rp = self.returns_own_container(h)
+                    if rp is not None and rp in self.helper_out.get(n, {}) and h.params.index(rp) < len(e.args):
+                        # the helper fills the container handed to it and returns it: the result holds what the container
+                        # held before and what the helper adds
+                        add_c = self.helper_out[n][rp]
+                        add = FS()
+                        if add_c != TOP:
+                            for q in add_c:
+                                if q in h.params and h.params.index(q) < len(e.args):
+                                    add = cup(add, self.selfconf(e.args[h.params.index(q)], env, fi))
+                        else:
+                            add = TOP
+                        return meet(self.ev(e.args[h.params.index(rp)], env, fi), add)
                     c = FS()
-                    for p, a in zip(self.helper_fi(n).params, e.args):
+                    for p, a in zip(h.params, e.args):
                         if p in hs:
                             c = cup(c, self.selfconf(a, env, fi))
                     return c
@@ -572,6 +600,19 @@ class Confinement:
 
     def comp_conf(self, comp, env: Env, fi):
         """conf of the elements produced by  (x for x in ITER if COND)"""
+        if len(comp.generators) == 1:
+            g0 = comp.generators[0]
+            fake = ast.For(target=g0.target, iter=g0.iter, body=[], orelse=[])
+            items = unroll_items(fake, fi.node, fi.params)
+            if items is not None:
+                # a comprehension over a literal tuple: the meet over its (unrolled) iterations
+                c = TOP
+                for elt in items:
+                    e2 = self.stmt(ast.copy_location(ast.Assign(targets=[g0.target], value=elt), comp), env.copy(), fi)
+                    for cond in g0.ifs:
+                        e2 = self.narrow(cond, e2, True, fi)
+                    c = meet(c, self.ev(comp.elt, e2, fi))
+                return c
         e2 = env.copy()
         for g in comp.generators:
             if isinstance(g.target, ast.Name):
@@ -735,3 +776,48 @@ def report_bypass(ctx, res, fi: FunctionInfo, rule: str, families: List[ast.stmt
                           fi.short, txt(r)[:40], txt(F).split("\n")[0][:60], F.lineno),
                       construct="%s: `%s` bypasses `%s`" % (fi.short, txt(r)[:40], txt(F).split("\n")[0][:60]))
     return 1
+
+
+def numeric_rejections(ctx, res, rule: str, functions, what: str) -> int:
+    """`None` (disjoint) may be decided by a membership test, by a sub-intersection being None or by an empty candidate
+    set -- all of which carry the library's tolerance.  A *numeric* ordering comparison that leads straight to
+    `return None` must leave a tolerance margin too (depend on the live get_eps()): with an exact threshold, operands
+    that merely touch (where the compared quantity is zero up to float noise) are reported as disjoint."""
+    from .rules.c15 import cond_deps
+    eng = ctx.types
+    n = 0
+    for fi in functions:
+        g = ctx.cfg(fi)
+        for cn in g.conds():
+            e = cn.ast
+            cmps = [c for c in ast.walk(e) if isinstance(c, ast.Compare) and len(c.ops) == 1
+                    and isinstance(c.ops[0], (ast.Lt, ast.LtE, ast.Gt, ast.GtE))]
+            if not cmps:
+                continue
+            rejecting = False
+            for y, _l in g.succ[cn.id]:
+                yn = g.nodes[y]
+                if yn.kind == "return" and (yn.ast.value is None or (isinstance(yn.ast.value, ast.Constant) and yn.ast.value.value is None)):
+                    rejecting = True
+            if not rejecting:
+                continue
+            for c in cmps:
+                sides = [c.left, c.comparators[0]]
+                if any(isinstance(x, ast.Call) and isinstance(x.func, ast.Name) and x.func.id == "len" for sd in sides for x in ast.walk(sd)):
+                    continue
+                tys = [set(map(str, eng.types_at(fi, sd))) for sd in sides]
+                if not all(t and t <= {"num", "bool"} for t in tys):
+                    continue
+                n += 1
+                deps = set()
+                for sd in sides:
+                    deps |= cond_deps(ctx, fi, sd)
+                ok = "get_eps" in deps
+                res.ob(rule, fi.where(c), "%s: `%s` -> return None" % (fi.short, txt(c)[:50]), ok,
+                       "threshold depends on the live tolerance" if ok else "exact threshold")
+                if not ok:
+                    res.violation(rule, fi, c, "%s reports the operands as disjoint on the exact comparison `%s` (%s): where they merely touch "
+                                  "the compared quantity is zero up to float noise, so the touching point is lost; every other None of the "
+                                  "handlers comes from a tolerant membership test, a None sub-intersection or an empty candidate set"
+                                  % (fi.short, txt(c)[:60], what), construct="%s: exact numeric rejection `%s`" % (fi.short, txt(c)[:40]))
+    return n
